@@ -264,6 +264,9 @@ impl PropImpl for C17 {
          Gate: texts not starting with 'Format:' are refused as not machine-readable by all three readers. Non-trivial: >= 2 Files paragraphs match a path, or the deciding pattern has a wildcard/escape/metacharacter, \
          or the licence comes from the stand-alone fallback.".into()
     }
+    fn expected_labels(&self) -> Vec<&'static str> {
+        vec!["lookup", "glob-grid", "not-machine-readable", "several-files-paragraphs-match", "no-paragraph-matches", "path-with-newline", "path-with-space", "deciding-pattern-has-escape", "deciding-pattern-has-regex-metacharacter", "licence-from-stand-alone-paragraph", "patterns-on-several-lines", "patterns-separated-by-space"]
+    }
     fn budget(&self, tier: Tier) -> Budget {
         Budget { cases_per_lane: if tier == Tier::Quick { 3000 } else { 30_000 }, tape_max: 500, cpu_s: 20 }
     }
